@@ -12,6 +12,7 @@
     10N requests with all-distinct markers must not grow by more than 64 bytes per additional request.
 """
 import gc
+import io
 import weakref
 import itertools
 import tracemalloc
@@ -22,7 +23,8 @@ RULE = ('request kinds {success with cookie+header+status, plain success, raised
         'marker variants each; histories = all ordered pairs (quick) or triples (thorough) of kind-variants plus random histories of length 20-60; '
         'retention runs of N and 10N requests per kind mix. Non-trivial = the history has an earlier request of a different kind or variant; '
         'distinct = distinct history.')
-REQUIRED = ['growth_runs', 'baselines', 'history_requests_compared', 'ordered_pairs_covered', 'retention_runs', 'weakrefs_tracked', 'kinds_in_histories',
+PYOPT = {'quick': 1, 'thorough': 1}     # one unit of every kind is also served by an interpreter started with -O (assert statements compiled out)
+REQUIRED = ['units_run_under_python_-O', 'growth_runs', 'baselines', 'history_requests_compared', 'ordered_pairs_covered', 'retention_runs', 'weakrefs_tracked', 'kinds_in_histories',
             'error_after_success', 'success_after_error', 'undecodable_path_after_cookie', 'shared_error_instances_raised']
 EXHAUSTIVE = {'quick': True, 'thorough': True, 'quick_note': 'all ordered pairs of the kind-variants', 'thorough_note': 'all ordered triples of the kind-variants'}
 ASSUMPTIONS = ['the Date header (none is emitted by the framework) and object addresses are not part of a response',
@@ -34,6 +36,15 @@ MAXBODY = 200
 class Env(dict):
     """dict subclass so that the environ can be weakly referenced"""
     __slots__ = ('__weakref__',)
+
+
+class TrackedFile(io.BytesIO):
+    pass
+
+
+def session_cookie(m):
+    from ombott.common_helpers import cookie_encode
+    return 'sess="' + cookie_encode(('sess', {'n': 1, 'log': ['start-' + m]}), 'k').decode() + '"'
 
 
 class Marker:
@@ -117,6 +128,30 @@ def build_app(track=None):
     def json_():
         return 'json=%r' % (app.request.json,)
 
+    @app.route('/file')
+    def file_():
+        # a file-like body: handed to the server's file wrapper when the server offers one
+        m = app.request.query.get('m', 'none')
+        f = note(TrackedFile(('file-' + m + '|') .encode() * 20))
+        app.response.headers['X-File'] = m
+        return f
+
+    @app.route('/peek')
+    def peek():
+        # a request without a body has no form fields, whatever was posted before
+        rq = app.request
+        return 'peek=%r' % ((sorted(rq.forms.items()), sorted(rq.params.items()), len(rq.POST), len(rq.files), rq.query_string),)
+
+    @app.route('/session')
+    def session():
+        # the usual session idiom: read the signed value, change it in place, sign it again
+        m = app.request.query.get('m', 'none')
+        sess = app.request.get_cookie('sess', secret='k') or {'n': 0, 'log': []}
+        sess['n'] += 1
+        sess['log'].append(m)
+        app.response.set_cookie('sess', sess, secret='k')
+        return 'session=%r' % (sess,)
+
     @app.route('/signed')
     def signed():
         m = app.request.query.get('m', 'none')
@@ -163,12 +198,26 @@ def kinds():
         'cutmp_in_closing_delimiter': lambda m: dict(method='POST', path='/form', qs='m=' + m, body=mp(m)[:-(4 + len(m) % 3)], content_type='multipart/form-data; boundary=B'),
         'cutmp_in_first_delimiter': lambda m: dict(method='POST', path='/form', qs='m=' + m, body=mp(m)[:1 + len(m) % 3], content_type='multipart/form-data; boundary=B'),
         'goodjson': lambda m: dict(method='POST', path='/json', content_type='application/json', body=('{"m": "' + m + '"}').encode()),
+        # file-like bodies, with and without a server-side file wrapper
+        'file': lambda m: dict(method='GET', path='/file', qs='m=' + m),
+        'file_wrapped': lambda m: dict(method='GET', path='/file', qs='m=' + m, file_wrapper=True),
+        'file_wrapped_head': lambda m: dict(method='HEAD', path='/file', qs='m=' + m, file_wrapper=True),
+        # a signed cookie holding a mutable value which the handler changes in place; the same request may come again (retry, second tab)
+        'session': lambda m: dict(method='GET', path='/session', qs='m=' + m, headers={'Cookie': session_cookie(m)}),
+        # clients without a Host header: the URL comes from SERVER_NAME / SERVER_PORT, different per variant
+        'ok_http10': lambda m: dict(method='GET', path='/ok', qs='m=' + m, headers={'Cookie': 'in=' + m, 'X-In': m, 'Host': 'h' + m + '.example:8080'}, flavour='http10'),
+        'notfound_http10': lambda m: dict(method='GET', path='/nf/' + m, qs='q=' + m, headers={'Host': 'h' + m + '.example'}, flavour='http10'),
+        # a form under chunked transfer framing, and a body-less request looking at its (empty) form afterwards
+        'chunked_urlform': lambda m: dict(method='POST', path='/form', qs='m=' + m, content_type='application/x-www-form-urlencoded', chunked=True, content_length=None,
+                                          stream=b'4\r\na=' + m.encode()[:1] + b'x\r\n' + b'%x\r\n' % (len(m) + 4) + m.encode() + b'&b=2\r\n0\r\n\r\n'),
+        'peek': lambda m: dict(method='GET', path='/peek', qs='m=' + m),
     }
     return K
 
 
 VARIANTS = ['A1', 'B22xx']      # different lengths: pages that embed the URL differ in size
-SUCCESS = {'ok', 'plain', 'raise', 'head', 'gen', 'form', 'urlform', 'signed', 'goodjson', 'gen_cookie'}
+SUCCESS = {'ok', 'plain', 'raise', 'head', 'gen', 'form', 'urlform', 'signed', 'goodjson', 'gen_cookie', 'file', 'file_wrapped', 'file_wrapped_head', 'session', 'ok_http10',
+           'chunked_urlform', 'peek'}
 SHARED_ERR = {'badchunk', 'badmultipart', 'oversized', 'noname_part', 'badjson_json', 'badchunk_json', 'oversized_json', 'cutmp_in_closing_delimiter', 'cutmp_in_first_delimiter'}
 
 
@@ -206,6 +255,11 @@ def baselines(ctx, K):
                 ctx.violation('baseline-response-broken', f'{kind}/{m}: {r.escaped!r} {r.problems}', None)
             if kind in SUCCESS and r.code >= 400:
                 ctx.violation('harness-baseline-kind-failed', f'{kind}/{m}: {r.status} {r.errors[-300:]}', None)
+            # the reference itself: a fresh application's answer cannot carry what earlier requests of this process brought
+            for other in VARIANTS:
+                if other != m and (other.encode() in r.body or any(other in v for _, v in r.headers or ())):
+                    ctx.violation(f'response-of-a-fresh-application-carries-an-earlier-marker:{kind}', f'{kind}/{m} on a fresh application carries {other!r}: {r.status} {r.headers} {r.body[:200]!r}',
+                                  {'unit': {'kind': 'note', 'request': [kind, m]}})
     return base
 
 
